@@ -278,6 +278,11 @@ class Machine:
         ctx = self.ctx
         if self.is_gen:
             value = ctx.out  # type: ignore[assignment]
+        elif c.returns and isinstance(value, (VTuple, VNone)) and not c.returns.startswith(("Tuple[", "py:", "List[", "Deque[")):
+            try:
+                value = get_sort(c.returns).coerce(value)
+            except EngineError:
+                pass
         self.result = value
         # raising clauses: on a normal return none of the raise conditions held at entry
         for exc, cond in c.raises:
@@ -872,6 +877,8 @@ class Machine:
                     return self.ctx.alloc("iter", dict_keys(self, c)), True
             if isinstance(v, VSeq):
                 return self.ctx.alloc("iter", v), True
+            if isinstance(v, VOpt) and isinstance(v.sort.elem, SeqSort):  # narrowed by an earlier `is None` test
+                return self.ctx.alloc("iter", v.sort.elem.wrap(v.sort.val(v.term))), True
             raise EngineError(f"cannot iterate over {v!r}")
 
         if isinstance(it, VPy) and isinstance(it.obj, tuple) and it.obj[0] == "enumerate":
@@ -951,6 +958,8 @@ class Machine:
                 return r
         if n in self.global_syms:
             v = self.global_syms[n]
+            if self.spec and self._spec_old_mode and n in getattr(self, "old_globals", {}):
+                v = self.old_globals[n]
             if self.spec and isinstance(v, VHeapRef):
                 return self.deref_spec(v)
             return v
@@ -1014,6 +1023,11 @@ class Machine:
         return VHeapRef(self.ctx.alloc(kind, sv), kind)
 
     def ex_Dict(self, e: ast.Dict, hint: str | None = None) -> V:
+        hook = getattr(self.world, "dict_display_hook", None)
+        if hook is not None:
+            r = hook(self, e, hint)
+            if r is not None:
+                return r
         if hint and hint.startswith("const:") and not e.keys:
             return self.world.consts[hint[6:]]
         if hint is None and not e.keys and "EMPTY_DICT" in self.world.consts:
@@ -1363,6 +1377,10 @@ class Machine:
         r = self.call_dunder(container, "__contains__", [item])
         if r is not None:
             return self.truth(r)
+        for h in getattr(self.world, "contains_hooks", []):
+            t = h(self, container, item)
+            if t is not None:
+                return t
         raise EngineError(f"`in` on {container!r}")
 
     # ---- attribute / subscript -----------------------------------------------------------
@@ -1410,6 +1428,8 @@ class Machine:
             if name == "__name__":
                 return VStr(obj.name)
             return VPy(("clsattr", obj.name, name))
+        if isinstance(obj, VPy) and obj.obj == ("builtin", "object"):
+            return VPy(("clsattr", "object", name))
         if isinstance(obj, VExc):
             if name == "message":
                 return VStr(z3.String(fresh_name("excmsg")))
@@ -1456,6 +1476,24 @@ class Machine:
         if isinstance(obj, VMap):
             return map_getitem(self, obj, idx)
         s = self.seq_value(obj)
+        if s is not None and isinstance(idx, VInt) and z3.is_int_value(z3.simplify(idx.term)) and z3.simplify(idx.term).as_long() == 0 and not self.spec:
+            # s[0]: head/tail decomposition instead of an index term
+            if not self.ctx.branch(z3.Length(s.term) > 0):
+                raise RaiseSig(VExc("IndexError"))
+            x = s.sort.elem.fresh("hd")
+            r = s.sort.fresh("tl")
+            self.ctx.assume(s.term == mk_cons(x.term, r.term))
+            self.ctx.bank.add(s.term, ("cons", x.term, r.term))
+            return x
+        if s is not None and isinstance(idx, VInt) and z3.is_int_value(z3.simplify(idx.term)) and z3.simplify(idx.term).as_long() == -1 and not self.spec:
+            # s[-1]: init/last decomposition
+            if not self.ctx.branch(z3.Length(s.term) > 0):
+                raise RaiseSig(VExc("IndexError"))
+            x = s.sort.elem.fresh("last")
+            r = s.sort.fresh("init")
+            self.ctx.assume(s.term == mk_snoc(r.term, x.term))
+            self.ctx.bank.add(s.term, ("snoc", r.term, x.term))
+            return x
         if s is not None and isinstance(idx, VInt):
             n = z3.Length(s.term)
             i = z3.simplify(z3.If(idx.term < 0, n + idx.term, idx.term))
@@ -1468,6 +1506,10 @@ class Machine:
         r = self.call_dunder(obj, "__getitem__", [idx])
         if r is not None:
             return r
+        for h in getattr(self.world, "index_hooks", []):
+            r = h(self, obj, idx)
+            if r is not None:
+                return r
         raise EngineError(f"subscript of {obj!r}")
 
     def slice(self, obj: V, sl: ast.Slice) -> V:
@@ -1662,7 +1704,14 @@ class Machine:
                 try:
                     bound[n] = get_sort(sname).coerce(bound[n] if not isinstance(bound[n], VHeapRef) else self.ctx.cell(bound[n].addr).value)  # type: ignore[union-attr]
                 except EngineError as ex:
-                    raise EngineError(f"call of {key}: argument {n}: {ex}")
+                    alt = None
+                    for h in getattr(self.world, "coerce_hooks", []):
+                        alt = h(self, bound[n], sname)
+                        if alt is not None:
+                            break
+                    if alt is None:
+                        raise EngineError(f"call of {key}: argument {n}: {ex}")
+                    bound[n] = alt
         if ghost:
             bound.update(ghost)
         n_ord = self.call_ord.get(key, 0) + 1
